@@ -132,12 +132,12 @@ def solverSites (c : Config) (p : EigProblem) : List String :=
     (if decide (InCount (gen_smallest_leftCols p.want p.skip) p.n) &&
         decide (InCount (gen_smallest_rightCols p.want p.skip) (gen_smallest_leftCols p.want p.skip))
       then [] else [p.tag ++ "_cols"]) ++
-    (if decide (InBlock (gen_segment_start p.want p.skip) (gen_segment_len p.want p.skip) p.n) then [] else [p.tag ++ "_segment"])
+    (if decide (InBlock (gen_segment_start p.want p.skip) (gen_segment_len p.want p.skip p.n) p.n) then [] else [p.tag ++ "_segment"])
   else if p.smallest then
     (if decide (InCount (dense_smallest_leftCols p.want p.skip) p.n) &&
         decide (InCount (dense_smallest_rightCols p.want p.skip) (dense_smallest_leftCols p.want p.skip))
       then [] else [p.tag ++ "_cols"]) ++
-    (if decide (InBlock (dense_segment_start p.want p.skip) (dense_segment_len p.want p.skip) p.n) then [] else [p.tag ++ "_segment"])
+    (if decide (InBlock (dense_segment_start p.want p.skip) (dense_segment_len p.want p.skip p.n) p.n) then [] else [p.tag ++ "_segment"])
   else
     (if decide (InCount (dense_largest_rightCols p.want) p.n) && decide (InCount (dense_largest_tail p.want) p.n)
       then [] else [p.tag ++ "_cols"])
